@@ -132,9 +132,9 @@ func genValue(r *gen.Rand) string {
 	}
 }
 
-func lit(s string) piece      { return piece{kind: 'x', lit: []byte(s)} }
-func ref(s, j int) piece      { return piece{kind: 'i', s: s, j: j} }
-func other(p string) piece    { return piece{kind: 'o', lit: []byte(p)} }
+func lit(s string) piece         { return piece{kind: 'x', lit: []byte(s)} }
+func ref(s, j int) piece         { return piece{kind: 'i', s: s, j: j} }
+func other(p string) piece       { return piece{kind: 'o', lit: []byte(p)} }
 func (p piece) with(m mut) piece { p.muts = append(append([]mut(nil), p.muts...), m); return p }
 
 // postKeys simulates which stored keys the handler's ops leave in the response (fasthttp SetCookie
@@ -343,7 +343,7 @@ func wireLenOf(plain string) int { return (12 + len(plain) + 16 + 2) / 3 * 4 }
 
 // scenario: set cookies, send them back (browser-like), set more, send back again
 func scRoundtrip(r *gen.Rand) []scase {
-	c, _ := genCfg(r, !r.Chance(1, 6))
+	c, _ := genCfg(r, !r.Chance(1, 3))
 	ops0 := genOps(r, 1+r.Intn(5), r.Chance(1, 3))
 	keys0 := postKeys(ops0)
 	var kvs []nv
@@ -380,7 +380,7 @@ func scRoundtrip(r *gen.Rand) []scase {
 // scenario: several cookies per request incl. duplicate names, tampered / foreign / literal values,
 // several Cookie header lines, direct SetCookie on top; duplicate names in the response
 func scDups(r *gen.Rand) []scase {
-	c, _ := genCfg(r, !r.Chance(1, 8))
+	c, _ := genCfg(r, !r.Chance(1, 3))
 	names := []string{gen.Pick(r, namePool), gen.Pick(r, namePool), gen.Pick(r, namePool)}
 	plains := []string{genValue(r), genValue(r), genValue(r)}
 	var ops0 []op
